@@ -5,6 +5,9 @@
 #[path = "/repo/sandbox/src/alloc.rs"]
 mod alloc;
 
+/// the allocator type under test (for the native replay binary)
+pub type AllocT = alloc::Alloc;
+
 /// Source of nondeterminism: `kani::any()` under Kani, a recorded byte feed natively (replay of
 /// Kani's concrete playback values, in the same call order).
 pub mod nd {
